@@ -15,6 +15,7 @@ import (
 	"github.com/boombuler/barcode/utils"
 
 	"verif/core"
+	"verif/oracle/qrdec"
 	"verif/sched"
 )
 
@@ -166,8 +167,9 @@ func schedHarness(desc []string) (sched.Harness, error) {
 		}}, nil
 	case "S3e": // one whole qr.Encode per version (default schedule + probes only): S3e <version>
 		v := atoi(desc[1])
-		content := string(qrFill(2, qrCap(2, v%4, v)))
-		lv := qrLevels[v%4]
+		l := s3eLevel(v)
+		content := string(qrFill(2, qrCap(2, l, v)))
+		lv := qrLevels[l]
 		var want string
 		underSched(func() { qr.VerifReset(); want = observe(qr.Encode(content, lv, qr.AlphaNumeric)) })
 		return sched.Harness{Name: name, Policy: sched.ThreadLevel, ProbesOnly: true, Setup: func() ([]func(), func(*sched.Exec) (string, string)) {
@@ -225,6 +227,27 @@ var s3dCases = [][2]string{{"1", "0123"}, {"2", "AB1"}, {"3", "hé"}, {"0", "7"}
 	{"0", "31"}, {"0", "188"},
 	// refused for size (every early return must leave no goroutine behind)
 	{"2", strings.Repeat("A", 4297)}, {"1", strings.Repeat("7", 7090)}, {"0", strings.Repeat("Z", 4297)}, {"3", strings.Repeat("z", 2954)}}
+
+// s3eLevel picks, for the one whole-symbol run per version, the level whose data bit count has the most
+// trailing zero bits (a symbol that fills a power-of-two sized buffer exactly, e.g. 21-Q = 4096 bits),
+// the levels rotating otherwise.
+func s3eLevel(v int) int {
+	best, bestTZ := v%4, -1
+	for k := 0; k < 4; k++ {
+		l := (v + k) % 4
+		g1, d1, g2, d2, _ := qrdec.BlockLayout(v, l)
+		bits := 8 * (g1*d1 + g2*d2)
+		tz := 0
+		for bits > 0 && bits%2 == 0 {
+			tz++
+			bits /= 2
+		}
+		if tz > bestTZ && tz >= 10 {
+			best, bestTZ = l, tz
+		}
+	}
+	return best
+}
 
 func cachesKeyShort() string {
 	return fmt.Sprintf("qr cache %d, dm cache %d", len(qr.VerifCacheState()), len(datamatrix.VerifCacheState()))
@@ -645,8 +668,9 @@ func RaceOps(mode string) []RaceOp {
 		// one symbol of every version 1..40 (version-dependent loops, remainder bits, block groups)
 		for v := 1; v <= 40; v++ {
 			v := v
-			content := string(qrFill(2, qrCap(2, v%4, v)))
-			lv := qrLevels[v%4]
+			l := s3eLevel(v)
+			content := string(qrFill(2, qrCap(2, l, v)))
+			lv := qrLevels[l]
 			out = append(out, RaceOp{fmt.Sprintf("qr v%d", v), func() string { return observe(qr.Encode(content, lv, qr.AlphaNumeric)) }})
 		}
 	default:
